@@ -1042,6 +1042,20 @@ func StressFixed(kind string, n int, sel bool) *m.Expr {
 			return m.Tern(m.Lit("bool", c), m.Lit("num", "0"), e)
 		}
 		return m.Tern(m.Lit("bool", c), e, m.Lit("num", "0"))
+	case "many-args":
+		// one call of a host-registered function of n parameters (ov, registered by the caller)
+		args := make([]*m.Expr, n)
+		for i := range args {
+			args[i] = lit(i)
+		}
+		return m.Call("ov", args...)
+	case "many-lazy-args":
+		// the same for a lazy host function: n deferred arguments, the selected one is the last
+		args := make([]*m.Expr, n)
+		for i := range args {
+			args[i] = lit(i)
+		}
+		return m.Call("lz_last", args...)
 	case "nested-thunks":
 		e := lit(7)
 		for i := 0; i < n; i++ {
@@ -1070,7 +1084,7 @@ func StressFixed(kind string, n int, sel bool) *m.Expr {
 	panic("unknown stress kind " + kind)
 }
 
-var StressKinds = []string{"deep-right", "deep-calls", "wide-list", "wide-list-len", "wide-map", "wide-obj", "long-arms", "nested-thunks", "nested-logic"}
+var StressKinds = []string{"deep-right", "deep-calls", "wide-list", "wide-list-len", "wide-map", "wide-obj", "long-arms", "nested-thunks", "nested-logic", "many-args", "many-lazy-args"}
 
 // LitOf: a deterministic literal expression denoting v (nil when v has no
 // literal form: NaN / Inf, optionals, functions, invalid UTF-8, zones).
